@@ -9,10 +9,14 @@
 //   A <class> <key hex> <msg hex> <mac hex>  Sha256::hmac with the result buffer overlapping an input buffer (key / msg = the inputs as they were before the call)
 //   G <class> <msg hex> <digest hex>         Sha256::hash with the result buffer inside the data buffer
 // modes: chunk-q / chunk-t (length 0..300 x 3 contents x all 2-way splits x sampled / all 3-way splits x hasher states), rand, big, hmac, hmac-rand, vectors,
-//        alias (result buffer == / overlapping the key, message or data buffer; finalize() into the buffer of the last update())
+//        alias (result buffer == / overlapping the key, message or data buffer; finalize() into the buffer of the last update()),
+//        mt / mt-tsan (2..8 threads, each with hasher objects of its own and the static helpers, hashing at the same time; results compared with the
+//        digests / MACs of the same inputs computed - and recorded as H/P/M/N lines - before the threads were started)
 #include "vh.hpp"
 #include <nstd/Crypto/Sha256.hpp>
 #include <dlfcn.h>
+#include <pthread.h>
+#include <errno.h>
 
 using namespace vh;
 
@@ -489,6 +493,179 @@ static void aliasing() {
   }
 }
 
+// ------------------------------------------------------------------------------------------------ several threads hashing at the same time
+// A Sha256 object is plain data (8 state words, count, block buffer) and hash()/hmac() work on a local object: hashers that are not shared between threads
+// are independent, so every result computed while other threads hash must equal the result of the same call computed while the process was single-threaded.
+// Case = 2..8 threads (case index mod 7), each with 4..10 seeded work items of its own (one-shot hash(), a long-lived hasher of its own fed in 1..3 pieces with
+// reset() in between, a fresh hasher per call fed in up to 6 pieces, hmac(), the RFC 2104 construction spelled out with two hashers of its own) and 30..120 rounds
+// over them. Phase 1 (main thread only): the expected value of every item through one-shot hash()/hmac(), recorded for the offline hashlib/hmac comparison, and
+// one control round of every thread's work list run serially. Phase 2: all threads are released by one barrier.
+// Threads touch only their own MtThread (plus relaxed-atomic progress counters); vh::cnt/setItem/fail are called by the main thread after joining.
+enum { MT_HASH = 0, MT_REUSED = 1, MT_FRESH = 2, MT_HMAC = 3, MT_HMAC_PARTS = 4, MT_KINDS = 5, MT_MAXT = 8 };
+static const char* const mtName[MT_KINDS] = { "hash()", "own reused hasher, chunked", "fresh hasher per call, chunked", "hmac()", "RFC 2104 construction from two own hashers" };
+static const char* const mtKey[MT_KINDS] = { "Sha256.hash/other-threads-hashing/digest", "Sha256.update/other-threads-hashing/reused-hasher/digest", "Sha256.update/other-threads-hashing/fresh-hasher/digest",
+                                              "Sha256.hmac/other-threads-hashing/mac", "Sha256.update/other-threads-hashing/hmac-construction/mac" };
+static const char* const mtCtlKey[MT_KINDS] = { "Sha256.hash/mt-control-single-threaded/digest", "Sha256.update/mt-control-single-threaded/reused-hasher/digest", "Sha256.update/mt-control-single-threaded/fresh-hasher/digest",
+                                                 "Sha256.hmac/mt-control-single-threaded/mac", "Sha256.update/mt-control-single-threaded/hmac-construction/mac" };
+static const char* const mtCounter[MT_KINDS] = { "mt_static_hash_digests", "mt_reused_hasher_digests", "mt_fresh_hasher_digests", "mt_static_hmacs", "mt_hmacs_from_own_hashers" };
+
+struct MtItem { int kind; Exact msg, key; u8 want[32]; MtItem() : kind(0) {} };
+struct MtThread {
+  int id, nthreads, rounds, nitems; bool serial; u64 rseed; MtItem** items; pthread_barrier_t* bar; MtThread* all;
+  long progress;                                   // rounds completed; read by the other threads (__atomic, relaxed)
+  long results[MT_KINDS], wrong[MT_KINDS], updates, overlapRounds;
+  int badItem[MT_KINDS], badRound[MT_KINDS]; u8 badGot[MT_KINDS][32];
+};
+
+static void mtCompute(MtThread& t, Hasher& own, Rng& r, const MtItem& it, int round, Digest& out) {
+  const u8* m = it.msg.p; size_t L = it.msg.n;
+  switch (it.kind) {
+  case MT_HASH: Sha256::hash(m, L, out); ++t.updates; break;
+  case MT_REUSED: {
+    if ((round & 7) == 3) { u8 g[70]; size_t k = 1 + (size_t)r.below(70); for (size_t i = 0; i < k; ++i) g[i] = (u8)r.next(); own.h->update(g, k); own.h->reset(); ++t.updates; }   // abandon a message half-way
+    size_t a = (size_t)r.below(L + 1), b = (size_t)r.below(L + 1); if (a > b) { size_t x = a; a = b; b = x; } int pieces = 1 + (int)r.below(3);
+    if (pieces == 1) { own.h->update(m, L); } else if (pieces == 2) { own.h->update(m, a); own.h->update(m + a, L - a); } else { own.h->update(m, a); own.h->update(m + a, b - a); own.h->update(m + b, L - b); }
+    t.updates += pieces; own.h->finalize(out); break; }
+  case MT_FRESH: { Hasher h; size_t pos = 0; int n = 0; while (pos < L || n == 0) { size_t c = n >= 5 ? L - pos : pickChunk(r, L - pos); h.h->update(m + pos, c); pos += c; ++n; } t.updates += n; h.h->finalize(out); break; }
+  case MT_HMAC: Sha256::hmac(it.key.p, it.key.n, m, L, out); break;
+  default: {   // RFC 2104: H((K0 ^ opad) || H((K0 ^ ipad) || text)), K0 = key padded with zeros to the block size, or H(key) padded when the key is longer than a block
+    u8 k0[64]; memset(k0, 0, sizeof k0); size_t kl = it.key.n;
+    if (kl > 64) { own.h->update(it.key.p, kl); own.h->finalize(*(Digest*)k0); ++t.updates; } else if (kl) memcpy(k0, it.key.p, kl);
+    u8 ipad[64], opad[64]; for (int i = 0; i < 64; ++i) { ipad[i] = (u8)(k0[i] ^ 0x36); opad[i] = (u8)(k0[i] ^ 0x5c); }
+    Dig inner; own.h->update(ipad, 64); own.h->update(m, L); own.h->finalize(inner.ref());
+    Hasher outer; outer.h->update(opad, 64); outer.h->update(inner.d, 32); outer.h->finalize(out); t.updates += 4; break; }
+  }
+}
+
+static void* mtWorker(void* arg) {
+  MtThread& t = *(MtThread*)arg; Hasher own; Dig d; Rng r(t.rseed); long seen[MT_MAXT];
+  if (!t.serial) { pthread_barrier_wait(t.bar); for (int o = 0; o < t.nthreads; ++o) seen[o] = __atomic_load_n(&t.all[o].progress, __ATOMIC_RELAXED); }
+  for (int round = 0; round < t.rounds; ++round) {
+    for (int i = 0; i < t.nitems; ++i) {
+      const MtItem& it = *t.items[i]; int k = it.kind;
+      mtCompute(t, own, r, it, round, d.ref()); ++t.results[k];
+      if (memcmp(d.d, it.want, 32)) { if (!t.wrong[k]++) { t.badItem[k] = i; t.badRound[k] = round; memcpy(t.badGot[k], d.d, 32); } }
+    }
+    if (!t.serial) {   // did another thread complete a round while this one did? (evidence that the threads really ran at the same time)
+      __atomic_store_n(&t.progress, (long)round + 1, __ATOMIC_RELAXED); bool adv = false;
+      for (int o = 0; o < t.nthreads; ++o) if (o != t.id) { long p = __atomic_load_n(&t.all[o].progress, __ATOMIC_RELAXED); if (p != seen[o]) { seen[o] = p; adv = true; } }
+      if (adv) ++t.overlapRounds;
+    }
+  }
+  return 0;
+}
+
+static void mtReset(MtThread& t, bool serial) {
+  t.serial = serial; t.progress = 0; t.updates = t.overlapRounds = 0;
+  for (int k = 0; k < MT_KINDS; ++k) { t.results[k] = t.wrong[k] = 0; t.badItem[k] = t.badRound[k] = -1; }
+}
+
+static size_t mtLen(Rng& r) {
+  static const size_t pts[] = { 0, 1, 55, 56, 63, 64, 65, 119, 120, 127, 128, 129 };
+  switch (r.below(8)) {
+  case 0: case 1: case 2: return pts[r.below(12)];
+  case 3: case 4: return (size_t)r.below(301);
+  case 5: return (size_t)r.range(301, 2048);
+  case 6: return (size_t)r.range(2049, 9000);
+  default: return r.chance(1, 4) ? (size_t)r.range(9000, 20000) : (size_t)r.range(0, 1024);
+  }
+}
+
+static bool g_mtStop = false;
+// In the ThreadSanitizer build the process must end normally for the driver to read the TSan log (it skips the log of a process that exited 3), so there the
+// oracle failure is reported with the same protocol as vh::fail (replay file + @VIOL line) but without exiting; the case loop stops after this case.
+static void mtViolation(const char* key, const char* msg) {
+#ifdef __SANITIZE_THREAD__
+  char path[512]; snprintf(path, sizeof path, "%s/replay.h_sha.%ld.%d.txt", opts.out, curCase, (int)getpid());
+  int fd = open(path, O_WRONLY | O_CREAT | O_TRUNC, 0666);
+  if (fd >= 0) { Text head; head.addf("harness=h_sha\nmode=%s\nseed=%llu\ncase=%ld\nexclude=%s\nkey=%s\nctx=%s\n", opts.mode, (unsigned long long)opts.seed, curCase, opts.exclude ? opts.exclude : "", key, (const char*)ctx);
+    head.add("msg="); head.add(msg); head.add("\n--- history of the failing case ---\n"); if (write(fd, head.d, head.n) < 0) {} if (hist.n && write(fd, hist.d, hist.n) < 0) {} close(fd); }
+  printf("@VIOL key=%s replay=%s msg=%s\n", key, path, msg); fflush(stdout); g_mtStop = true;
+#else
+  fail(key, "%s", msg);
+#endif
+}
+
+static void mtReport(MtThread* th, int nt, bool control) {
+  long wrongAll = 0, resultsAll = 0; for (int t = 0; t < nt; ++t) for (int k = 0; k < MT_KINDS; ++k) { wrongAll += th[t].wrong[k]; resultsAll += th[t].results[k]; }
+  if (!wrongAll) return;
+  for (int k = 0; k < MT_KINDS; ++k) for (int t = 0; t < nt; ++t) if (th[t].wrong[k]) {   // fixed order: API class first, then thread number
+    const MtThread& T = th[t]; const MtItem& it = *T.items[T.badItem[k]]; char a[65], b[65]; hexStr(T.badGot[k], 32, a); hexStr(it.want, 32, b); Text m;
+    if (control) m.addf("single-threaded control round, work list of thread %d, item %d (%s, message of %lu bytes", t, T.badItem[k], mtName[k], (unsigned long)it.msg.n);
+    else m.addf("thread %d of %d, round %d, item %d (%s, message of %lu bytes", t, nt, T.badRound[k], T.badItem[k], mtName[k], (unsigned long)it.msg.n);
+    if (k >= MT_HMAC) m.addf(", key of %lu bytes", (unsigned long)it.key.n);
+    m.addf("): result %s, but the %s of the same input computed before the threads were started is %s; %ld of the %ld results %s were wrong", a, k >= MT_HMAC ? "MAC" : "digest", b, wrongAll, resultsAll,
+           control ? "of the control round" : "computed while the other threads were hashing");
+    mtViolation(control ? mtCtlKey[k] : mtKey[k], m.c()); return;
+  }
+}
+
+static void multiThreaded() {
+  for (long idx = opts.start; idx < opts.start + opts.cases && !g_mtStop; ++idx) {
+    if (!mine(idx)) continue;
+    beginCase(idx);
+    Rng r(opts.seed, 1707, (u64)idx);
+    int nt = 2 + (int)(idx % 7), rounds = (int)r.range(30, 120);
+    hist.addf("# %d threads hashing at the same time, %d rounds each over the thread's own work items; expected values computed beforehand by the main thread\n", nt, rounds);
+    MtThread th[MT_MAXT]; pthread_barrier_t bar; u64 fp = mix((u64)nt, (u64)rounds); long nitemsAll = 0;
+    // ---- phase 1: work items and their expected values (single-threaded), recorded for the offline comparison
+    for (int t = 0; t < nt; ++t) {
+      MtThread& T = th[t]; T.id = t; T.nthreads = nt; T.rounds = rounds; T.nitems = (int)r.range(4, 10); T.rseed = r.next(); T.bar = &bar; T.all = th;
+      T.items = (MtItem**)malloc(sizeof(MtItem*) * (size_t)T.nitems);
+      hist.addf("thread %d:", t);
+      for (int i = 0; i < T.nitems; ++i) {
+        MtItem* it = new MtItem; T.items[i] = it; it->kind = i < MT_KINDS && t < 2 ? (i + t) % MT_KINDS : (int)r.below(MT_KINDS);   // the first two threads have every kind
+        size_t L = mtLen(r); Dig want;
+        if (it->kind >= MT_HMAC) {
+          size_t kl = r.chance(1, 3) ? (size_t)r.range(60, 70) : r.chance(1, 2) ? (size_t)r.below(201) : (size_t)r.below(400);
+          it->key.alloc(kl); it->msg.alloc(L); Text rl;
+          if (kl + L > 300) { u64 ks = r.below(256), ms = r.below(256); for (size_t j = 0; j < kl; ++j) it->key.p[j] = pat(ks, j); for (size_t j = 0; j < L; ++j) it->msg.p[j] = pat(ms, j); rl.addf("N %lu %lu %lu %lu ", (unsigned long)ks, (unsigned long)kl, (unsigned long)ms, (unsigned long)L); }
+          else { fillContent(it->key.p, kl, (int)(r.below(5) ? 0 : r.below(3)), r); fillContent(it->msg.p, L, (int)(r.below(5) ? 0 : r.below(3)), r); rl.add("M "); addHex(rl, it->key.p, kl); rl.add(" "); addHex(rl, it->msg.p, L); rl.add(" "); }
+          setctxf("Sha256.hmac/key%sblock", kl < 64 ? "<" : kl == 64 ? "=" : ">"); Sha256::hmac(it->key.p, kl, it->msg.p, L, want.ref()); cnt("hmacs");
+          setItem("hmac_key_classes", kl == 0 ? "key=0" : kl < 64 ? "key<block" : kl == 64 ? "key=block" : "key>block");
+          addHex(rl, want.d, 32); rl.add("\n"); rec("%s", rl.c()); cnt("mt_expected_macs_recorded");
+          hist.addf(" %s(key %lu, msg %lu)", it->kind == MT_HMAC ? "hmac" : "hmac-from-own-hashers", (unsigned long)kl, (unsigned long)L);
+        } else {
+          it->msg.alloc(L); Text rl;
+          if (L > 512) { u64 s = r.below(256); for (size_t j = 0; j < L; ++j) it->msg.p[j] = pat(s, j); rl.addf("P %lu %lu ", (unsigned long)s, (unsigned long)L); }
+          else { fillContent(it->msg.p, L, (int)(r.below(6) < 4 ? 0 : r.below(3)), r); rl.add("H "); addHex(rl, it->msg.p, L); rl.add(" "); }
+          setctx("Sha256.hash/one-shot"); Sha256::hash(it->msg.p, L, want.ref()); cnt("digests"); cnt("updates"); cnt("one_shot_recorded"); padClass(L);
+          addHex(rl, want.d, 32); rl.add("\n"); rec("%s", rl.c()); cnt("mt_expected_digests_recorded");
+          hist.addf(" %s(%lu)", it->kind == MT_HASH ? "hash" : it->kind == MT_REUSED ? "reused-hasher" : "fresh-hasher", (unsigned long)L);
+        }
+        memcpy(it->want, want.d, 32); fp = mix(fp, mix((u64)it->kind * 1000003 + L, *(u64*)want.d)); cnt("bytes_in_messages", (long)L);
+      }
+      hist.add("\n"); nitemsAll += T.nitems;
+    }
+    // ---- control: one round of every work list, serially in the main thread (a defect that needs no second thread must not be reported as a threading defect)
+    setctx("Sha256.update+hash+hmac/mt-control-single-threaded");
+    for (int t = 0; t < nt; ++t) { mtReset(th[t], true); int keep = th[t].rounds; th[t].rounds = 1; mtWorker(&th[t]); th[t].rounds = keep; for (int k = 0; k < MT_KINDS; ++k) cnt("mt_control_results_compared", th[t].results[k]); }
+    mtReport(th, nt, true);
+    // ---- phase 2: the same work lists in nt threads released together
+    if (!g_mtStop) {
+      setctx("Sha256.update+hash+hmac/other-threads-hashing");
+      if (pthread_barrier_init(&bar, 0, (unsigned)nt) != 0) harnessBug("pthread_barrier_init");
+      for (int t = 0; t < nt; ++t) mtReset(th[t], false);
+      pthread_t tid[MT_MAXT];
+      for (int t = 0; t < nt; ++t) if (pthread_create(&tid[t], 0, mtWorker, &th[t]) != 0) harnessBug("pthread_create: %s", strerror(errno));
+      for (int t = 0; t < nt; ++t) if (pthread_join(tid[t], 0) != 0) harnessBug("pthread_join");
+      pthread_barrier_destroy(&bar);
+      long overlap = 0, all = 0;
+      for (int t = 0; t < nt; ++t) {
+        for (int k = 0; k < MT_KINDS; ++k) { cnt(mtCounter[k], th[t].results[k]); cnt("mt_results_compared", th[t].results[k]); all += th[t].results[k]; }
+        cnt("mt_updates", th[t].updates); cnt("mt_thread_rounds", rounds); overlap += th[t].overlapRounds;
+      }
+      cnt("mt_thread_rounds_during_which_another_thread_advanced", overlap); if (overlap) cnt("mt_cases_with_observed_overlap");
+      cnt("mt_cases"); cnt("mt_threads_run", nt); cnt("mt_work_items", nitemsAll); statMax("mt_max_threads", nt); statMax("mt_max_results_per_case", all);
+      { char b[16]; snprintf(b, sizeof b, "%d", nt); setItem("mt_thread_counts", b); }
+      mtReport(th, nt, false);
+    }
+    for (int t = 0; t < nt; ++t) { for (int i = 0; i < th[t].nitems; ++i) delete th[t].items[i]; free(th[t].items); }
+    if (idx % 97 == 0) sample("%.600s", hist.c());
+    endCase(fp, true);
+  }
+}
+
 // ------------------------------------------------------------------------------------------------ published vectors (expected values only in sha_ref.py)
 static void recDigest(const char* name, const u8* d) { Text t; t.addf("V %s ", name); addHex(t, d, 32); t.add("\n"); rec("%s", t.c()); cnt("vectors"); }
 static void vecHash(const char* name, const char* s, size_t n) { Exact m; m.set((const u8*)s, n); Dig d; setctx("Sha256.hash/vector"); hist.addf("vector %s\n", name); Sha256::hash(m.p, n, d.ref()); cnt("digests"); recDigest(name, d.d); }
@@ -525,6 +702,7 @@ int main(int argc, char** argv) {
   else if (!strcmp(m, "hmac-rand")) hmacRandom();
   else if (!strcmp(m, "vectors")) vectors();
   else if (!strcmp(m, "alias")) aliasing();
+  else if (!strcmp(m, "mt") || !strcmp(m, "mt-tsan")) multiThreaded();
   else harnessBug("unknown mode %s", m);
   leakCheck("Sha256/leak");
   finish();
